@@ -1,3 +1,4 @@
+import OutlineModel.Proofs.TieIP
 import OutlineModel.Model.IPInfo
 import OutlineModel.Model.Metrics
 import OutlineModel.Proofs.IP
@@ -108,5 +109,19 @@ theorem decision_order_as_modelled :
     no return of drainErrToString is computed from the error (which would carry both endpoints). -/
 theorem probe_label_values_fixed :
     Gen.Decisions.drainResults = ["eof", "other", "timeout"] ∧ Gen.Decisions.drainReturnsNonLiteral = false := by decide
+
+
+/-! ### The same classification, about the code itself
+
+`Gen.Code.GetIPInfoFromIP` is TRANSLATED from ipinfo/ipinfo.go on every run (extract/golean.go); the database is a
+parameter (any function), `IsGlobalUnicast` is the prelude's. -/
+
+/-- the translated `GetIPInfoFromIP` never panics; its country label and error flag are the model's, for every
+    database behaviour (`Tie.IP.dbOf` reads the database parameter as the model's `DB`) and every byte string -/
+theorem code_getIPInfoFromIP (get : GoRT.Opaque "ipinfo.IPInfoMap" → List UInt8 → Gen.Code.IPInfo × Option String)
+    (ip2info : GoRT.Opaque "ipinfo.IPInfoMap") (ip : List UInt8) :
+    (Gen.Code.GetIPInfoFromIP get ip2info ip).map (fun r => (r.1.CountryCode, r.2.isSome)) =
+      some ((fromIP (Tie.IP.dbOf get ip2info ip) ip).label, (fromIP (Tie.IP.dbOf get ip2info ip) ip).isErr) :=
+  Tie.IP.getIPInfoFromIP_tie get ip2info ip
 
 end OutlineModel.Props.C20
